@@ -94,6 +94,8 @@ class PathCtx:
         self.dim_violations: list = []
         self.dim_tracked = False
         self.fresh_mode = False
+        self.fresh_obligations = False
+        self.int_subst: list = []
 
     def dim_violation(self, what, xs):
         if len(self.dim_violations) < 20:
@@ -126,10 +128,12 @@ class PathCtx:
         if r == "unknown":
             s2 = z3.Solver()
             s2.set("timeout", self.query_timeout_ms)
-            s2.add(*self.assumptions)
-            s2.add(*self.pc)
-            if extra:
-                s2.add(*extra)
+            fs = list(self.assumptions) + list(self.pc) + list(extra)
+            if self.int_subst:
+                # integers pinned on this path (int(x) concretisations) are substituted so that the
+                # query is purely polynomial and nlsat applies
+                fs = [z3.substitute(f, *self.int_subst) for f in fs]
+            s2.add(*fs)
             r = str(s2.check())
             if r == "sat":
                 m = s2.model()
@@ -218,6 +222,15 @@ class PathCtx:
         return d
 
     def concretize_int(self, ti) -> int:
+        raw = ti
+        val = self._concretize_int(ti)
+        iv = z3.IntVal(val)
+        for t in (raw, z3.simplify(raw)):
+            if not z3.is_int_value(t):
+                self.int_subst.append((t, iv))
+        return val
+
+    def _concretize_int(self, ti) -> int:
         ti = z3.simplify(ti)
         if z3.is_int_value(ti):
             return ti.as_long()
@@ -418,7 +431,11 @@ class SymEnv:
         return SymReal.const(x)
 
     def nonlinear(self, on=True):
-        """decide all further queries of this path on fresh solvers (nlsat)"""
+        """decide all further queries of this path on fresh solvers (nlsat);
+        ``on="obligations"``: only the obligations (branch conditions stay on the incremental solver)"""
+        if on == "obligations":
+            self.p.fresh_obligations = True
+            return
         self.p.fresh_mode = bool(on)
 
     def assume(self, cond):
@@ -435,7 +452,13 @@ class SymEnv:
             st.obligations += 1
         t0 = time.time()
         neg = z3.Not(claim_t)
-        r, m = self.p._check(neg)
+        saved_mode = self.p.fresh_mode
+        if self.p.fresh_obligations:
+            self.p.fresh_mode = True
+        try:
+            r, m = self.p._check(neg)
+        finally:
+            self.p.fresh_mode = saved_mode
         dt = time.time() - t0
         ob = Obligation(name, r, dt, info=info, detail=detail, path=[bool(d[0]) for d in self.p.decisions[: self.p.pos]])
         if r == "unsat":
@@ -775,6 +798,8 @@ def _validation_point(p: PathCtx, env: SymEnv):
     for name, value in env.observed:
         out = []
         for x in _flat_obs(value):
+            if isinstance(x, np.ndarray) and x.ndim == 0:
+                x = x.item()
             if isinstance(x, SymComplex):
                 xs = [x.re, x.im]
             else:
